@@ -126,20 +126,59 @@ def r2(ctx, F, rule, sfx):
     ctx.evaluations += ip.evaluations
     keep = [repr(x) for x in c3(I.get_field(out, 'normal'))] == ['N.x', 'N.y', 'N.z']
     ctx.check(rule, 'normal-untouched-by-accumulation' + sfx, keep, repr(I.get_field(out, 'normal'))[:80], 'the value set at creation', where(bodies['collect']), key_extra='keep')
-    # accessor
-    acc = F.body_by_suffix('VoronoiFace::normal')
-    ip = I.Interp(F)
-    face = I.Sym(nf.sym_atom('face'), 'voronoi::voronoi_face::VoronoiFace')
-    v, _ = ip.call_body(acc, [ip.ref_to(face)])
-    ctx.check(rule, 'accessor-returns-stored-normal' + sfx, repr(I.frozen(v)) == 'face.inner.integral.normal', repr(I.frozen(v)), 'self.inner.integral.normal', where(acc), key_extra='accessor')
-    # the face record's integral is created for the same plane as right/shift (C03.R6) — cross-reference
-    for nm, want in (('VoronoiFace::area', 'face.inner.integral.area'), ('VoronoiFace::centroid', 'face.inner.integral.centroid'), ('VoronoiFace::left', 'face.inner.left'),
-                     ('VoronoiFace::right', 'face.inner.right'), ('VoronoiFace::shift', 'face.inner.shift')):
-        ab = F.body_by_suffix(nm)
-        ip = I.Interp(F)
-        v, _ = ip.call_body(ab, [ip.ref_to(face)])
-        ctx.evaluations += ip.evaluations
-        ctx.check(rule, 'accessor:%s%s' % (nm.split('::')[-1], sfx), repr(I.frozen(v)) == want, repr(I.frozen(v)), want, where(ab), key_extra='acc:' + nm)
+    # accessors, end to end: a face created for plane k of a cell, fed one triangle and finalised, reports through its
+    # public accessors the outward normal of plane k, the cell's index, and the neighbour / shift of plane k
+    # (no private field names are assumed)
+    vf_init = F.body_by_suffix('VoronoiFace::init')
+    vf_col = F.body_by_suffix('VoronoiFace::collect')
+    vf_fin = F.body_by_suffix('VoronoiFace::finalize')
+    ip = I.Interp(F, no_inline=['geometry::signed_area_tri'])
+    face, _ = ip.call_body(vf_init, [ip.ref_to(cell), RF.sym('k')])
+    fr = ip.ref_to(face, mut=True)
+    ip.call_body(vf_col, [fr] + [I.sym_vec3(x) for x in ('v0', 'v1', 'v2', 'g')])
+    face2, _ = ip.call_body(vf_fin, [I.read_lv(fr.lv)])
+    ctx.evaluations += ip.evaluations
+    hs = I.get_index(I.get_field(cell, 'clipping_planes'), RF.sym('k'), 'voronoi::half_space::HalfSpace')
+    want = {
+        'normal': [-x for x in pn],
+        'left': 'cell.idx',
+        'right': repr(I.frozen(I.get_field(hs, 'right_idx'))),
+        'shift': repr(I.frozen(I.get_field(hs, 'shift'))),
+    }
+    for nm in ('normal', 'left', 'right', 'shift'):
+        ab = F.body_by_suffix('VoronoiFace::' + nm)
+        ipa = I.Interp(F)
+        v, _ = ipa.call_body(ab, [ipa.ref_to(face2)])
+        ctx.evaluations += ipa.evaluations
+        if nm == 'normal':
+            got = c3(v)
+            ok = all(as_rf(got[i]) == want['normal'][i] for i in range(3))
+            shown = repr(got[0])
+        else:
+            shown = repr(I.frozen(v))
+            ok = shown == want[nm]
+        ctx.check(rule, 'accessor:%s%s' % (nm, sfx), ok, shown[:100], 'outward normal of plane k' if nm == 'normal' else want[nm], where(ab), key_extra='acc:' + nm)
+    # area / centroid accessors return what the accumulator computed
+    sa = [e for e in ip.events if e.callee == 'geometry::signed_area_tri']
+    if len(sa) == 1:
+        a_ = as_rf(sa[0].result)
+        ab = F.body_by_suffix('VoronoiFace::area')
+        ipa = I.Interp(F)
+        v, _ = ipa.call_body(ab, [ipa.ref_to(face2)])
+        ctx.check(rule, 'accessor:area%s' % sfx, as_rf(v) == a_, repr(v)[:80], 'the accumulated signed triangle area', where(ab), key_extra='acc:area')
+        ab = F.body_by_suffix('VoronoiFace::centroid')
+        ipa = I.Interp(F)
+        v, _ = ipa.call_body(ab, [ipa.ref_to(face2)])
+        P = [c3(I.sym_vec3(x)) for x in ('v0', 'v1', 'v2')]
+        gotc = c3(v)
+        okc = True
+        for conds, leaf in split_cases(gotc[0]):
+            pos = any(c.op == 'cmp' and c.args[0] == '<' and isinstance(c.args[1], RF) and c.args[1].is_zero() for c in conds)
+            if pos:
+                okc = okc and as_rf(leaf) == (P[0][0] + P[1][0] + P[2][0]) / 3
+        ctx.check(rule, 'accessor:centroid%s' % sfx, okc, repr(gotc[0])[:100], 'one triangle: its centroid (v0+v1+v2)/3 when the area is positive', where(ab), key_extra='acc:centroid')
+    else:
+        ctx.incomplete(rule, 'accessor:area%s' % sfx, 'signed_area_tri evaluated %d times through VoronoiFace::collect' % len(sa), where(vf_col))
 
 
 def accumulator_form(ctx, F, st, bodies, fields):
